@@ -16,6 +16,9 @@
 (*  nraw       one record written by the harness through Decode and back    *)
 (*             through Encode                                               *)
 (*  macbyte / macrune / macstr   mac.Decode, mac.DecodeOne, mac.Encode      *)
+(*  codechist  a history of mac.Encode / mac.Decode / name.Info.Encode /      *)
+(*             name.Decode calls with every result looked at when handed out *)
+(*             and again after all later calls                               *)
 (*  post       a glyph-name list (fresh, or the slice an earlier post.Read     *)
 (*             returned, re-sliced, appended to: histories generated from    *)
 (*             NameCodec.tla part "posth") through post.Info.Encode (walked),*)
@@ -177,6 +180,17 @@ MacStrOK ==
 
 MacStr == Is("macstr") /\ Judge(MacStrOK) /\ UNCHANGED <<langs, info>> /\ Consume
 
+\* a history of codec calls (NameCodec.tla, part "codech"): every result is what the codec says
+\* when it is handed out ("first") and still the same after all later calls ("final")
+CodecCallOK(c) ==
+  /\ c.final = c.first /\ c.final2 = c.first2                 \* results handed out never change
+  /\ CASE c.op = "ME" -> c.first = MacEnc(c.arg)
+       [] c.op = "MD" -> c.first = MacDec(c.arg)
+       [] c.op = "ND" -> c.first = MacDec(c.arg) /\ c.first2 = U16Dec(UnBE(c.arg2))
+       [] OTHER -> TRUE                                        \* NE: the table itself is judged by nencode
+CodecHistOK == ~E.failed /\ \A i \in 1..Len(E.calls) : CodecCallOK(E.calls[i])
+CodecHistEv == Is("codechist") /\ Judge(CodecHistOK) /\ UNCHANGED <<langs, info>> /\ Consume
+
 ---------------------------------------------------------------------------
 (* post *)
 
@@ -221,6 +235,7 @@ TagBackOK ==
 TagBack == Is("tagback") /\ Judge(TagBackOK) /\ UNCHANGED <<langs, info>> /\ Consume
 
 Next == LangTable \/ NReset \/ NEncode \/ NDecode \/ NRaw \/ MacByte \/ MacRune \/ MacStr \/ Post \/ PostReadEv
+        \/ CodecHistEv
         \/ TagScript \/ TagBack
 Spec == Init /\ [][Next]_vars
 
